@@ -30,7 +30,7 @@ ASSUMPTIONS = [
     'HITRAN gaps: master temperature grid = union over ranges; inside a range\'s own temperature span linear interpolation, outside zero',
     'HDF5 cross-section files identify the molecule by their mol_name dataset (as written by ExoMol), which is generated already sanitised',
 ]
-REQUIRED = {'cia:ranges-listed-descending': 0.012, 'cia:overlapping-ranges': 0.006, 'part:xsec': 0.1, 'part:ktable': 0.05, 'part:cia': 0.05, 'part:cache': 0.1}
+REQUIRED = {'ktable:descending-wavenumbers': 0.03, 'cia:gap-inside-band': 0.01, 'cia:negative-in-gapped-band': 0.006, 'cia:ranges-listed-descending': 0.01, 'cia:overlapping-ranges': 0.006, 'part:xsec': 0.1, 'part:ktable': 0.05, 'part:cia': 0.05, 'part:cache': 0.1}
 # coverage-guided extra (thorough tier): pure-Python taurex modules on this property's path, instrumented by atheris
 FUZZ = {'include': ['taurex.opacity', 'taurex.cia', 'taurex.cache', 'taurex.util.util'], 'runs': 8000, 'workers': 4}
 
@@ -51,9 +51,12 @@ def _table(draw, nwn=None):
             'unit': draw(st.sampled_from(['bar', 'Pa', 'kPa', 'mbar']))}
 
 
+STRATA = {'cia': 2, 'xsec': 2, 'cache': 2, 'ktable': 1.5}
+
+
 @st.composite
-def _case(draw):
-    part = draw(S.pick(['cia', 'xsec', 'cache', 'ktable', 'cia', 'xsec', 'cache']))
+def _case(draw, part=None):
+    part = part or draw(S.pick(['cia', 'xsec', 'cache', 'ktable', 'cia', 'xsec', 'cache']))
     c = {'part': part, 'name': draw(S.ints(0, len(NAMES) - 1)), 'iso': draw(st.booleans()),
          'table': draw(_table()), 'tp': [[draw(st.floats(-0.3, 1.3)), draw(st.floats(-0.3, 1.3))] for _ in range(4)],
          'mode': draw(st.sampled_from(['linear', 'exp']))}
@@ -61,15 +64,25 @@ def _case(draw):
         ng = draw(S.ints(1, 4))
         c['weights'] = draw(st.lists(st.floats(0.05, 1.0), min_size=ng, max_size=ng))
         c['gfac'] = draw(st.lists(st.floats(-1.0, 1.0), min_size=ng, max_size=ng))
-        c['kdesc'] = draw(st.booleans())
+        c['kdesc'] = draw(st.sampled_from([True, False, True]))
     if part == 'cia':
         c['table'] = draw(_table(nwn=draw(S.ints(4, 7))))      # room for two wavenumber ranges
         c['pair'] = draw(st.sampled_from(['H2-H2', 'H2-He', 'N2-N2', 'CO2-CO2']))
-        c['split'] = draw(st.sampled_from([False, True, True]))
+        c['split'] = draw(st.sampled_from([True, False, True, True]))
         c['interleave'] = draw(st.sampled_from([True, False, True]))
         c['ranges_reversed'] = draw(st.booleans())
         c['subset'] = draw(st.lists(st.booleans(), min_size=3, max_size=3))
+        # more temperatures than the opacity tables, so that a band can leave out one or two INSIDE its own span
+        c['cia_nT'] = draw(st.sampled_from([4, 5, None, 3, None]))
+        c['cia_dT'] = draw(st.lists(st.floats(50.0, 600.0), min_size=4, max_size=4))
+        c['subset5'] = draw(st.sampled_from([[True, False, True, True, True], [True, False, False, True, True], [False, True, False, True, False],
+                                             [True, True, False, True, False], [True, True, True, True, True], [False, False, True, False, True]])) \
+            if draw(S.ints(0, 2)) else draw(st.lists(st.booleans(), min_size=5, max_size=5))
+        c['keep_ends'] = draw(st.booleans())
+        c['neg_gap'] = [draw(st.sampled_from([True, True, False])), draw(S.ints(0, 6)), draw(st.booleans())]
         c['negative'] = draw(st.booleans())
+        # further noise entries below zero anywhere in the table (also next to a temperature a band does not tabulate)
+        c['neg_at'] = draw(st.lists(st.tuples(S.ints(0, 11), S.ints(0, 11)), min_size=0, max_size=4))
         c['block_order'] = draw(st.sampled_from(['descending', 'ascending', 'rotated']))
     if part == 'cache':
         pool = st.sampled_from(['get', 'set_interp', 'get', 'clear', 'path_b', 'path_a', 'add', 'get', 'memory'])
@@ -80,8 +93,8 @@ def _case(draw):
     return c
 
 
-def strategy(tier):
-    return _case()
+def strategy(tier, part=None):
+    return _case(part)
 
 
 def arrays(t, unit_pa=None):
@@ -284,6 +297,8 @@ def check_cia(out, c, tmp):
     Tg = t['T0'] + np.concatenate([[0.0], np.cumsum(t['dT'])])[:max(t['nT'], 2)]
     if len(Tg) < 2:
         Tg = np.array([t['T0'], t['T0'] + 250.0])
+    if c.get('cia_nT'):
+        Tg = t['T0'] + np.concatenate([[0.0], np.cumsum(c['cia_dT'])])[:c['cia_nT']]
     nW = t['nW']
     wn = t['wn0'] + t['dwn'] * np.arange(nW)
     n = len(Tg) * nW
@@ -291,6 +306,8 @@ def check_cia(out, c, tmp):
     coef = 10.0 ** (-44.0 + delta)                    # cm5 molecule-2, HITRAN magnitude
     if c['negative']:
         coef[0, 0] = -coef[0, 0]                      # HITRAN files contain small negative values: read as zero
+    for (a_, b_) in c.get('neg_at', []):
+        coef[a_ % len(Tg), b_ % nW] = -abs(coef[a_ % len(Tg), b_ % nW])
     pair = c['pair']
     # ---- one range, all temperatures: pickle and HITRAN describe the same table ------------------------
     hit = os.path.join(tmp, '%s_2011.cia' % pair)
@@ -299,6 +316,10 @@ def check_cia(out, c, tmp):
     if c['split'] and nW >= 4:
         h = nW // 2
         sub = [i for i in range(len(Tg)) if c['subset'][i % 3]] or [0]
+        if c.get('cia_nT'):
+            sub = [i for i in range(len(Tg)) if c['subset5'][i] or (c['keep_ends'] and i in (0, len(Tg) - 1))] or [0]
+        if any(i not in sub for i in range(min(sub), max(sub))):
+            out.cls('cia:gap-inside-band')
         if c.get('interleave'):
             # two ranges whose wavenumber spans overlap (their points interleave): HITRAN files do tabulate
             # overlapping bands for different temperature sets; the unified axis is still ascending
@@ -307,6 +328,14 @@ def check_cia(out, c, tmp):
         else:
             ranges = [(allw[:h], list(range(len(Tg)))), (allw[h:], sub)]
         out.cls('cia:split-ranges')
+        gaps = [i for i in range(min(sub), max(sub)) if i not in sub]
+        if gaps and c.get('neg_gap', [False])[0]:
+            # a noise entry below zero at a temperature that brackets the one this band leaves out
+            j_ = max(i for i in sub if i < gaps[0]) if c['neg_gap'][2] else min(i for i in sub if i > gaps[0])
+            k_ = ranges[1][0][c['neg_gap'][1] % len(ranges[1][0])]
+            coef[j_, k_] = -abs(coef[j_, k_])
+        if gaps and any(coef[i, k] < 0 for i in sub for k in ranges[1][0]):
+            out.cls('cia:negative-in-gapped-band')
     file_ranges = list(ranges)
     if c.get('ranges_reversed') and len(ranges) > 1:
         file_ranges = file_ranges[::-1]          # the higher band listed first in the file: any order of blocks is legal
